@@ -74,6 +74,28 @@ abbrev R := Except Outcome (Val × S)      -- evaluation of a value: result or a
 
 def numToCount (v : Val) : Option Rat := v.asNum.map (·.1)
 
+/-- number of passes for a count `n`: as long as the remaining count is positive -/
+def passCount (n : Rat) : Nat := if n ≤ 0 then 0 else n.ceil.toNat
+
+/-- what a full turn of `cycle` is, by unit mode -/
+def turnOf (m : UnitMode) : Int := if m == .raw then 65536 else 360
+
+/-- the increment of `with v from x to y` over `cnt` values: both ends included, a single value
+is the first one (`none`: the arithmetic fails) -/
+def interpIncr (cnt x y : Val) : Option Val :=
+  if Val.beq cnt (.int 1) then some (.int 0)
+  else (Vm.binOp .sub y x).bind fun d =>
+    (Vm.binOp .sub cnt (.int 1)).bind fun m => Vm.binOp .div d m
+
+/-- the increment of `with v cycle`: a full turn divided among `cnt` values; nothing to divide
+among no values -/
+def cycleIncr (m : UnitMode) (cnt : Val) : Option Val :=
+  if Val.beq cnt (.int 0) then some (.int 0) else Vm.binOp .div (.int (turnOf m)) cnt
+
+def withVarOf : WithClause → String
+  | .fromTo v _ _ => v
+  | .cycle v _ => v
+
 mutual
   /-- value of an expression; calls may change the state -/
   def evalExpr : Nat → Expr → S → Except Outcome (Val × S)
@@ -182,14 +204,24 @@ mutual
       | (.normal, s') => execBlock f rest s'
       | r => r
 
-  /-- one pass after another: `vals` are the loop-variable bindings of the remaining passes -/
-  def execPasses : Nat → List (List (String × Val)) → Block → S → Outcome × S
-    | 0, _, _, s => (.outOfFuel, s)
-    | _ + 1, [], _, s => (.normal, s)
-    | f + 1, binds :: rest, body, s =>
+  /-- one pass after another: `binds` are the bindings made at the start of each remaining pass
+  (the light/group/location name of a loop over names); `idx` is the index variable with its
+  increment.  The index variable is an ordinary variable: it has been given its first value
+  before the first pass, and after every pass that runs to its end the increment is added to
+  whatever it then holds.  `break` ends the loop at once (nothing is added). -/
+  def execPasses : Nat → List (List (String × Val)) → Option (String × Val) → Block → S → Outcome × S
+    | 0, _, _, _, s => (.outOfFuel, s)
+    | _ + 1, [], _, _, s => (.normal, s)
+    | f + 1, binds :: rest, idx, body, s =>
       let s1 := binds.foldl (fun st (n, v) => st.assign n v) s
       match execBlock f body s1 with
-      | (.normal, s2) => execPasses f rest body s2
+      | (.normal, s2) =>
+        match idx with
+        | none => execPasses f rest idx body s2
+        | some (v, incr) =>
+          match Vm.binOp .add (s2.lookup v) incr with
+          | some x => execPasses f rest idx body (s2.assign v x)
+          | none => (.fault "arithmetic error", s2)
       | (.brk, s2) => (.normal, s2)
       | r => r
 
@@ -396,73 +428,67 @@ mutual
         | .error o => .error o
         | .ok (vs, s2) => .ok (v :: vs, s2)
 
-  /-- names visited by `repeat in …`, in visiting order -/
+  /-- names visited by `repeat in … and …`, in visiting order: those of the first source first.
+  The sources themselves are EVALUATED from the last to the first (the generated code pushes the
+  names to visit last first, so that the first is on top), each member of a group or location
+  once, in name order; a source that is a group, a location or `all` leaves its kind in the
+  `operand` register (the discovery instructions are told what to walk through that register) -/
   def iterNames : Nat → List IterItem → S → Except Outcome (List String × S)
     | 0, _, _ => .error .outOfFuel
     | _ + 1, [], s => .ok ([], s)
     | f + 1, item :: rest, s =>
-      let one : Except Outcome (List String × S) :=
-        match item with
-        | .all => .ok (s.vm.lightNames, s)
-        | .light n =>
-          match evalRv f n s with
-          | .ok (.str x, s1) => .ok ([x], s1)
-          | .ok (_, _) => .error (.fault "light name is not a string")
-          | .error o => .error o
-        | .group n =>
-          match evalRv f n s with
-          | .ok (.str g, s1) => .ok ((s1.vm.groupLights g).getD [], s1)
-          | .ok (_, _) => .error (.fault "group name is not a string")
-          | .error o => .error o
-        | .location n =>
-          match evalRv f n s with
-          | .ok (.str g, s1) => .ok ((s1.vm.locationLights g).getD [], s1)
-          | .ok (_, _) => .error (.fault "location name is not a string")
-          | .error o => .error o
-      match one with
+      match iterNames f rest s with
       | .error o => .error o
-      | .ok (xs, s1) =>
-        match iterNames f rest s1 with
+      | .ok (ys, s1) =>
+        let one : Except Outcome (List String × S) :=
+          match item with
+          | .all => .ok (s1.vm.lightNames, s1.setReg .operand (.operand .light))
+          | .light n =>
+            match evalRv f n s1 with
+            | .ok (.str x, s2) => .ok ([x], s2)
+            | .ok (_, _) => .error (.fault "light name is not a string")
+            | .error o => .error o
+          | .group n =>
+            match evalRv f n s1 with
+            | .ok (.str g, s2) =>
+              .ok (Vm.dedupSorted ((s2.vm.groupLights g).getD []), s2.setReg .operand (.operand .group))
+            | .ok (_, _) => .error (.fault "group name is not a string")
+            | .error o => .error o
+          | .location n =>
+            match evalRv f n s1 with
+            | .ok (.str g, s2) =>
+              .ok (Vm.dedupSorted ((s2.vm.locationLights g).getD []),
+                s2.setReg .operand (.operand .location))
+            | .ok (_, _) => .error (.fault "location name is not a string")
+            | .error o => .error o
+        match one with
         | .error o => .error o
-        | .ok (ys, s2) => .ok (xs ++ ys, s2)
+        | .ok (xs, s2) => .ok (xs ++ ys, s2)
+
+  /-- the `with` clause of a loop whose number of passes is the count `cnt`: the operands are
+  evaluated (once, whatever the count), the index variable is given its first value, and the
+  increment is delivered (`none`: it cannot be computed) -/
+  def evalWith : Nat → WithClause → Val → S → Except Outcome (Option Val × S)
+    | 0, _, _, _ => .error .outOfFuel
+    | f + 1, .fromTo v a b, cnt, s =>
+      match evalRv f a s with
+      | .error o => .error o
+      | .ok (x, s1) =>
+        match evalRv f b s1 with
+        | .error o => .error o
+        | .ok (y, s2) => .ok (interpIncr cnt x y, s2.assign v x)
+    | f + 1, .cycle v start, cnt, s =>
+      let st0 : Except Outcome (Val × S) :=
+        match start with
+        | none => .ok (.int 0, s)
+        | some rv => evalRv f rv s
+      match st0 with
+      | .error o => .error o
+      | .ok (x, s1) => .ok (cycleIncr s1.vm.mode cnt, s1.assign v x)
 
   def execLoop : Nat → LoopHdr → Block → S → Outcome × S
     | 0, _, _, s => (.outOfFuel, s)
     | f + 1, h, body, s =>
-      -- number of passes for a count `n`: as long as the remaining count is positive
-      let passes (n : Rat) : Nat := if n ≤ 0 then 0 else n.ceil.toNat
-      -- bindings of an index variable over `k` passes: start, start+incr, …
-      let series (v : String) (start : Val) (incr : Val) (k : Nat) : Option (List (List (String × Val))) :=
-        (List.range k).mapM fun i =>
-          ((List.range i).foldlM (fun acc _ => Vm.binOp .add acc incr) start).map fun x => [(v, x)]
-      let withSeries (w : Option WithClause) (count : Nat) (st : S) :
-          Except Outcome (Option (List (List (String × Val))) × S) :=
-        match w with
-        | none => .ok (some ((List.range count).map fun _ => []), st)
-        | some _ => if count == 0 then .ok (some [], st) else
-        match w with
-        | none => .ok (some [], st)
-        | some (.fromTo v a b) =>
-          match evalRv f a st with
-          | .error o => .error o
-          | .ok (x, s1) =>
-            match evalRv f b s1 with
-            | .error o => .error o
-            | .ok (y, s2) =>
-              let incr : Option Val :=
-                if count == 1 then some (.int 0)
-                else (Vm.binOp .sub y x).bind fun d => Vm.binOp .div d (.int ((count : Int) - 1))
-              .ok (incr.bind fun i => series v x i count, s2)
-        | some (.cycle v start) =>
-          let st0 : Except Outcome (Val × S) :=
-            match start with
-            | none => .ok (.int 0, st)
-            | some rv => evalRv f rv st
-          match st0 with
-          | .error o => .error o
-          | .ok (x, s1) =>
-            let turn : Int := if s1.vm.mode == .raw then 65536 else 360
-            .ok ((Vm.binOp .div (.int turn) (.int count)).bind fun i => series v x i count, s1)
       match h with
       | .forever => execWhile f none body s
       | .while_ c => execWhile f (some c) body s
@@ -471,7 +497,7 @@ mutual
         | .error o => (o, s)
         | .ok (x, s1) =>
           match numToCount x with
-          | some q => execPasses f ((List.range (passes q)).map fun _ => []) body s1
+          | some q => execPasses f (List.replicate (passCount q) []) none body s1
           | none => (.fault "count is not a number", s1)
       | .range v a b =>
         match evalRv f a s with
@@ -480,14 +506,14 @@ mutual
           match evalRv f b s1 with
           | .error o => (o, s1)
           | .ok (y, s2) =>
+            -- the index variable has its first value whatever follows
+            let s3 := s2.assign v x
             match numToCount x, numToCount y with
             | some p, some q =>
               let step : Val := if q < p then .int (-1) else .int 1
-              let k := passes ((if q < p then p - q else q - p) + 1)
-              match series v x step k with
-              | some bs => execPasses f bs body s2
-              | none => (.fault "arithmetic error", s2)
-            | _, _ => (.fault "range bound is not a number", s2)
+              let k := passCount ((if q < p then p - q else q - p) + 1)
+              execPasses f (List.replicate k []) (some (v, step)) body s3
+            | _, _ => (.fault "range bound is not a number", s3)
       | .interp n v a b =>
         match evalRv f n s with
         | .error o => (o, s)
@@ -497,19 +523,10 @@ mutual
           | some q =>
             -- the increment is computed from the count as given; the number of passes from
             -- the count as it is counted down
-            match evalRv f a s1 with
+            match evalWith f (.fromTo v a b) cnt s1 with
             | .error o => (o, s1)
-            | .ok (x, s2) =>
-              match evalRv f b s2 with
-              | .error o => (o, s2)
-              | .ok (y, s3) =>
-                let incr : Option Val :=
-                  if Val.beq cnt (.int 1) then some (.int 0)
-                  else (Vm.binOp .sub y x).bind fun d =>
-                    (Vm.binOp .sub cnt (.int 1)).bind fun m => Vm.binOp .div d m
-                match incr.bind fun i => series v x i (passes q) with
-                | some bs => execPasses f bs body s3
-                | none => (.fault "arithmetic error", s3)
+            | .ok (none, s2) => (.fault "arithmetic error", s2)
+            | .ok (some i, s2) => execPasses f (List.replicate (passCount q) []) (some (v, i)) body s2
       | .cycle n v start =>
         match evalRv f n s with
         | .error o => (o, s)
@@ -517,48 +534,52 @@ mutual
           match numToCount cnt with
           | none => (.fault "count is not a number", s1)
           | some q =>
-            let st0 : Except Outcome (Val × S) :=
-              match start with
-              | none => .ok (.int 0, s1)
-              | some rv => evalRv f rv s1
-            match st0 with
+            match evalWith f (.cycle v start) cnt s1 with
             | .error o => (o, s1)
-            | .ok (x, s2) =>
-              let turn : Int := if s2.vm.mode == .raw then 65536 else 360
-              -- nothing to divide the turn among: no pass at all
-              if q == 0 then (.normal, s2.assign v x) else
-              match (Vm.binOp .div (.int turn) cnt).bind fun i => series v x i (passes q) with
-              | some bs => execPasses f bs body s2
-              | none => (.fault "arithmetic error", s2)
-      | .all lv w => iterLoop f s.vm.lightNames lv w withSeries body s
-      | .groups lv w => iterLoop f s.vm.groupNames lv w withSeries body s
-      | .locations lv w => iterLoop f s.vm.locationNames lv w withSeries body s
+            | .ok (none, s2) => (.fault "arithmetic error", s2)
+            | .ok (some i, s2) => execPasses f (List.replicate (passCount q) []) (some (v, i)) body s2
+      -- the discovery instructions are told what to walk through the `operand` register
+      | .all lv w => iterLoop f s.vm.lightNames lv w body (s.setReg .operand (.operand .light))
+      | .groups lv w => iterLoop f s.vm.groupNames lv w body (s.setReg .operand (.operand .group))
+      | .locations lv w =>
+        iterLoop f s.vm.locationNames lv w body (s.setReg .operand (.operand .location))
       | .iter items lv w =>
         match iterNames f items s with
         | .error o => (o, s)
-        | .ok (names, s1) => iterLoop f names lv w withSeries body s1
+        | .ok (names, s1) => iterLoop f names lv w body s1
 
-  def iterLoop : Nat → List String → String → Option WithClause →
-      (Option WithClause → Nat → S → Except Outcome (Option (List (List (String × Val))) × S)) →
-      Block → S → Outcome × S
-    | 0, _, _, _, _, _, s => (.outOfFuel, s)
-    | f + 1, names, lv, w, withSeries, body, s =>
-      match withSeries w names.length s with
-      | .error o => (o, s)
-      | .ok (none, s1) => (.fault "arithmetic error", s1)
-      | .ok (some idx, s1) =>
-        execPasses f ((names.zip idx).map fun (n, b) => (lv, .str n) :: b) body s1
+  /-- a loop over names: one pass per name, the name bound to `lv` at the start of the pass; a
+  `with` clause spreads its range over the number of names -/
+  def iterLoop : Nat → List String → String → Option WithClause → Block → S → Outcome × S
+    | 0, _, _, _, _, s => (.outOfFuel, s)
+    | f + 1, names, lv, w, body, s =>
+      match w with
+      | none => execPasses f (names.map fun n => [(lv, .str n)]) none body s
+      | some wc =>
+        match evalWith f wc (.int names.length) s with
+        | .error o => (o, s)
+        | .ok (none, s1) => (.fault "arithmetic error", s1)
+        | .ok (some i, s1) =>
+          execPasses f (names.map fun n => [(lv, .str n)]) (some (withVarOf wc, i)) body s1
 end
 
-/-- routine definitions are collected from the whole script before it runs (the loader moves
-them out of line), wherever at top level or inside blocks they appear -/
-def collect : Block → List (String × Routine)
-  | .nil => []
-  | .cons (.defRoutine n ps body) rest => (n, ⟨ps, body⟩) :: collect rest
-  | .cons (.ite _ t (some e)) rest => collect t ++ collect e ++ collect rest
-  | .cons (.ite _ t none) rest => collect t ++ collect rest
-  | .cons (.repeat_ _ body) rest => collect body ++ collect rest
-  | .cons _ rest => collect rest
+mutual
+  /-- routine definitions are collected from the whole script before it runs (the loader moves
+  them out of line), wherever they appear: at top level, inside `if` / `repeat` bodies, inside the
+  bodies of matrix blocks -/
+  def collect : Block → List (String × Routine)
+    | .nil => []
+    | .cons (.defRoutine n ps body) rest => (n, ⟨ps, body⟩) :: collect rest
+    | .cons (.ite _ t (some e)) rest => collect t ++ collect e ++ collect rest
+    | .cons (.ite _ t none) rest => collect t ++ collect rest
+    | .cons (.repeat_ _ body) rest => collect body ++ collect rest
+    | .cons (.action _ ops) rest => collectOps ops ++ collect rest
+    | .cons _ rest => collect rest
+  def collectOps : Operands → List (String × Routine)
+    | .nil => []
+    | .cons (.matrixBlock _ body) rest => collect body ++ collectOps rest
+    | .cons _ rest => collectOps rest
+end
 
 def run (fuel : Nat) (prog : Block) (lights : List Light) : Outcome × S :=
   let s0 : S := { vm := Vm.init lights, routines := (collect prog).reverse }
